@@ -211,11 +211,22 @@ def run_property(mod, tier, seed, replay=None):
     ctx = type('Ctx', (), dict(tier=tier, thorough=thorough, seed=seed, rng=rng, driver=drv, result=res,
         corpus=corpus_cases(pid), replay=replay, escalate=False, verif=VERIF, repo=REPO))()
     harness_error = None
+    moved = []
+    try:
+        from . import fingerprint
+        moved = fingerprint.changed(str(VERIF), str(REPO), pid)
+    except Exception: pass
     try:
         mod.run(ctx)
         if (not proof_ok or res.disagreements) and not res.violations and not thorough and not replay:
             ctx.escalate = True            # broken proof/correspondence: search harder for a failing input
             ctx.rng = random.Random(seed + 1)
+            mod.run(ctx)
+        elif moved and not res.violations and not thorough and not replay and time.time() - t0 < 100:
+            # the code this property's model is tied to is not the code the model was last validated against (AST fingerprints): nothing found so far
+            # means little - spend a second, larger pass with other random choices where the code moved (decides nothing by itself)
+            ctx.escalate = True
+            ctx.rng = random.Random(seed + 7919)
             mod.run(ctx)
     except Exception:
         harness_error = traceback.format_exc()
@@ -274,7 +285,7 @@ def run_property(mod, tier, seed, replay=None):
             'evaluations': res.evaluations, 'distinct_nontrivial': len(res.nontrivial), 'rule': res.rule or getattr(mod, 'RULE', ''),
             'samples': res.samples or ['(no case ran)'], 'traces_validated_against_impl': res.traces_validated,
             'disagreements': len(res.disagreements), 'known_findings_seen': sorted(seen_known),
-            'lean_build_s': round(st.wall, 1), 'escalated': bool(ctx.escalate),
+            'lean_build_s': round(st.wall, 1), 'escalated': bool(ctx.escalate), 'source_files_changed_since_validation': moved,
         }
         cov.update(res.extra)
         ev = {'property_id': pid, 'tier': tier, 'seed': seed, 'level': getattr(mod, 'LEVEL', 'proof'), 'coverage': cov,
